@@ -495,6 +495,8 @@ class Lexer(object):
                         e(environment.block_end_string)
                     )] + [
                         r'(?P<%s_begin>\s*%s\-|[ \t]*%s\*|%s)' % (n, r, r, prefix_re.get(n,r))
+                        if n != 'comment' else  # "{#*" is an ordinary comment, not an auto-indent marker
+                        r'(?P<%s_begin>\s*%s\-|%s)' % (n, r, prefix_re.get(n,r))
                         for n, r in root_tag_rules
                     ])), (TOKEN_DATA, '#bygroup'), '#bygroup'),
                 # data
